@@ -372,3 +372,67 @@ def _max_words(n):
             out.extend(cur)
         return out
     raise Unsupported(n[0])
+
+
+def words_upto(n, limit):
+    """the finite set of words of length <= limit in the language of AST node n (classes expand to their characters)"""
+    k = n[0]
+    if k == "class":
+        return set(n[1]) if limit >= 1 else set()
+    if k in ("bol", "eol"):
+        return {""}
+    if k == "seq":
+        out = {""}
+        for x in n[1]:
+            nxt = set()
+            for w in out:
+                for v in words_upto(x, limit - len(w)):
+                    if len(w) + len(v) <= limit:
+                        nxt.add(w + v)
+            out = nxt
+            if not out:
+                break
+        return out
+    if k == "alt":
+        out = set()
+        for x in n[1]:
+            out |= words_upto(x, limit)
+        return out
+    if k == "rep":
+        lo, hi = n[2], n[3]
+        out = set()
+        cur = {""}
+        i = 0
+        while True:
+            if i >= lo:
+                out |= cur
+            if hi is not None and i >= hi:
+                break
+            nxt = set()
+            for w in cur:
+                for v in words_upto(n[1], limit - len(w)):
+                    if v and len(w) + len(v) <= limit:
+                        nxt.add(w + v)
+            if not nxt or nxt <= out and i >= lo:
+                if i >= lo:
+                    break
+            cur = nxt
+            i += 1
+            if i > limit + 1:
+                break
+        return out
+    raise Unsupported(k)
+
+
+def canonical_weights_upto(limit):
+    """numerals of the weight notation in [0,1]: 0, 1, 0.d+, 1.0+ (length <= limit)"""
+    out = {"0", "1"}
+    digs = "0123456789"
+    frac = [""]
+    for _ in range(limit - 2):
+        frac = [f + d for f in frac for d in digs]
+        for f in frac:
+            out.add("0." + f)
+            if set(f) <= {"0"}:
+                out.add("1." + f)
+    return {w for w in out if len(w) <= limit}
